@@ -106,6 +106,9 @@ STATEFUL = {
     "macrorender": ("{% macro m a %}{% render 'part/iso' %}{{ a }}{% endmacro %}{% call m 7 %}|"
                     "{% render 'part/blk' %}|{% include 'part/blk' %}|{% for i in (1..2) %}{% call m i %}{% endfor %}",
                     lambda now, d: "077|<Z>|<Z>|011022"),
+    "translate": ("{{ 'hello' | t }}|{{ 'one' | ngettext: 'many', 2 }}|{% translate %}Hello{% endtranslate %}|{{ 'hello' | gettext }}",
+                  lambda now, d: (f"{d['_lang']}(hello)|{d['_lang']}N(many)|{d['_lang']}(Hello)|{d['_lang']}(hello)"
+                                  if d.get("_lang") else "hello|many|Hello|hello")),
     "nowtwice": ("{{ 'now' | date: '%s' }}-{{ 'now' | date: '%s' }}-{{ now | date: '%s' }}",
                  lambda now, d: f"{int(now)}-{int(now)}-{int(now)}"),
 }
@@ -463,6 +466,11 @@ class World:
                 apply_config(env, ev[1])
             elif ev[0] == "obtain" and ev[1] == hid:
                 self.obtain(inst, hid)
+            elif ev[0] == "pickle" and ev[1] == hid:
+                # the shared handle went through pickle here and now lives on a detached copy of
+                # its environment: the reference is the ORIGINAL (never pickled) template on an
+                # environment whose configuration stops at this point
+                break
         return inst
 
     def activate(self, inst: Inst, ei: int) -> None:
@@ -475,6 +483,7 @@ class World:
         d = gprog.make_data(random.Random(spec["seed"]))
         d["nums"] = [1, 2, 3, 4]
         d["unsorted"] = [3, 1, 2]
+        d["_lang"] = ("T", "FR", "DE", "JA")[spec["seed"] % 4] if spec.get("catalog") else None
         d.update(spec.get("extra") or {})
         return d
 
@@ -491,7 +500,8 @@ class World:
         ctl = DropCtl("d", fail_at=fail_at, exc=(fault or {}).get("exc", "InjectedFault"))
         w = wrap_data(d, spec.get("drops") or {"mode": "all"}, ctl)
         if spec.get("catalog"):
-            w["translations"] = worlds.Catalog()
+            # a fresh catalog object per render, in a language that depends on the data
+            w["translations"] = worlds.Catalog(("T", "FR", "DE", "JA")[spec["seed"] % 4])
         if tag == "shared" and not fault:
             self.last_data = (w, ctl, key)
         return w, ctl
@@ -735,6 +745,21 @@ def do_step(w: World, step: dict) -> None:
             raise Violation("configured_env_differs_from_fresh", step=step["id"], what=step["what"],
                             got=_short(after[ei]), expected=_short(exp))
         w.count("isolation_checked")
+    elif k == "repickle":
+        # the application ships the parsed template through pickle (supported: tests/test_pickle.py)
+        import pickle
+
+        st = w.shared.handles.get(step["h"])
+        if st is not None and st[0] == "ok":
+            try:
+                t2 = pickle.loads(pickle.dumps(st[1]))
+            except Exception:  # noqa: BLE001 - e.g. a locally defined custom tag: not picklable, skip
+                w.count("pickle_skipped")
+            else:
+                w.shared.handles[step["h"]] = ("ok", t2)
+                # the twin goes through pickle at the same point of the configuration history
+                w.env_events[w.hspec[step["h"]]["env"]].append(("pickle", step["h"]))
+                w.count("pickled")
     elif k == "oneshot":
         # module-level liquid2.render()/render_async() on DEFAULT_ENVIRONMENT
         import liquid2
@@ -1033,6 +1058,8 @@ def gen_plan(seed: int, tier: str) -> dict:
                               "{% endif %}", "{{ 'unterminated }}", "{% if a %}{% else %}{% else %}{% endif %}",
                               "{% case %}{% endcase %}", "{{ a.b[ }}", "{% macro %}{% endmacro %}", "{% raw %}never closed",
                               "{% block a %}{% block a %}{% endblock %}{% endblock %}{{ x | nosuchfilter }}",
+                              "{% assign r = 1..5 %}", "{{ (1.. }}", "{% for i in (1..3 %}{% endfor %}", "{{ 'a' | append: (x }}",
+                              "{{ a[ }}", "{% if (a or %}{% endif %}", "{{ \"${ (1.. }\" }}", "{% cycle (1..2 %}",
                               "{% liquid\nif\n%}", "{% translate %}{{ a.b }}{% endtranslate %}", "{{ \"${ }\" }}"])
             st = {"op": "parse", "id": nid(), "h": hid, "env": ei, "src": bad, "prog": "bad"}
         elif r < 0.8 or dg:
@@ -1046,6 +1073,11 @@ def gen_plan(seed: int, tier: str) -> dict:
             st["name"] = rng.choice(["main", "dir/page.html"])
         steps.append(st)
         handles.append((hid, ei))
+        if st.get("prog") == "bad" and rng.random() < 0.7:
+            h2 = len(handles)
+            steps.append({"op": "parse", "id": nid(), "h": h2, "env": ei, "src": rng.choice(gen_progs), "prog": "gen"})
+            handles.append((h2, ei))
+            steps.append({"op": "render", "id": nid(), "h": h2, "mode": rng.choice("sa"), "data": data_spec()})
         return hid
 
     n_steps = rng.randint(3, 10) if rng.random() < 0.5 else rng.randint(10, 30 if tier == "quick" else 40)
@@ -1071,8 +1103,28 @@ def gen_plan(seed: int, tier: str) -> dict:
                 if rng.random() < 0.4 and not st.get("fault"):
                     ds = dict(st["data"], reuse=True)  # same seed, and the SAME objects on the shared side
                 steps.append({"op": "render", "id": nid(), "h": hid, "mode": rng.choice("sa"), "data": ds})
-        elif r < 0.60:
+        elif r < 0.585:
             steps.append({"op": "analyze", "id": nid(), "h": rng.choice(handles)[0]})
+        elif r < 0.592:
+            # customise an environment, parse on it, ship the template through pickle, render
+            cands = [i for i, e in enumerate(envs) if not e.get("default_global") and not e["loader"].startswith("c")]
+            if cands and len(handles) < 8:   # (environments with caching loaders are not picklable at all)
+                ei = rng.choice(cands)
+                what = rng.choice(["replace_filter", "add_filter", "globals_set", "loop_limit",
+                                   "translation_filters", "replace_json", "undefined"])
+                steps.append({"op": "configure", "id": nid(), "env": ei, "v": rng.choice(["X", "Y"]), "what": what})
+                hid = len(handles)
+                steps.append({"op": "parse", "id": nid(), "h": hid, "env": ei, "prog": "envshow",
+                              "src": "{{ 'abc' | upcase }}|" + ("{{ 'a' | shout }}|" if what == "add_filter" else "")
+                                     + "{{ gv }}|{{ extra }}|{{ h | json }}|{{ 'hi %(you)s' | t }}|{{ missing }}"
+                                     "{% if user.name %}{{ user.name | downcase }}{% endif %}"})   # no Identifier nodes: picklable
+                handles.append((hid, ei))
+                steps.append({"op": "repickle", "id": nid(), "h": hid})
+                steps.append({"op": "render", "id": nid(), "h": hid, "mode": rng.choice("sa"), "data": data_spec()})
+        elif r < 0.60:
+            hid = rng.choice(handles)[0]
+            steps.append({"op": "repickle", "id": nid(), "h": hid})
+            steps.append({"op": "render", "id": nid(), "h": hid, "mode": rng.choice("sa"), "data": data_spec()})
         elif r < 0.70:
             steps.append({"op": "advance", "dt": rng.choice([0.001, 1, 1, 59, 3600, 86400, 86400 * 31, -5, -86400, 0,
                                                               86400 - (1_700_000_000 % 86400) + 1])})
